@@ -165,18 +165,16 @@ func (s *MemoryStore) Enqueue(env Envelope) error {
 	now := s.nowFn()
 	s.maybePruneLocked(now)
 
-	if s.maxDepth > 0 {
-		activeCount := s.activeCountLocked()
-		activeDeliveredCount := s.activeDeliveredCountLocked()
-		for activeCount >= s.maxDepth || (s.deliveredRetentionMaxAge > 0 && activeDeliveredCount >= s.maxDepth) {
-			if s.dropPolicy != "drop_oldest" {
-				return ErrQueueFull
-			}
-			if !s.dropOldestQueuedLocked() {
-				return ErrQueueFull
-			}
-			activeCount = s.activeCountLocked()
-			activeDeliveredCount = s.activeDeliveredCountLocked()
+	// Decide what drop_oldest would evict, but evict nothing until the new
+	// item is certain to be stored: a refused enqueue must not change the queue.
+	var victims []string
+	if need := s.depthOverflowLocked(1); need > 0 {
+		if s.dropPolicy != "drop_oldest" {
+			return ErrQueueFull
+		}
+		var ok bool
+		if victims, ok = s.oldestQueuedIDsLocked(need); !ok {
+			return ErrQueueFull
 		}
 	}
 
@@ -188,8 +186,11 @@ func (s *MemoryStore) Enqueue(env Envelope) error {
 	if env.ID == "" {
 		env.ID = newHexID("evt_")
 	}
-	if _, exists := s.items[env.ID]; exists {
+	if _, exists := s.items[env.ID]; exists && !containsID(victims, env.ID) {
 		return ErrEnvelopeExists
+	}
+	for _, id := range victims {
+		s.evictLocked(id, memoryEvictionReasonDropOldest)
 	}
 	if env.State == "" {
 		env.State = StateQueued
@@ -237,18 +238,18 @@ func (s *MemoryStore) EnqueueBatch(items []Envelope) (int, error) {
 	now := s.nowFn()
 	s.maybePruneLocked(now)
 
-	// Pre-validate: check depth, duplicates, and prepare copies.
-	activeCount := s.activeCountLocked()
-	activeDeliveredCount := s.activeDeliveredCountLocked()
+	// Pre-validate: check depth, duplicates, and prepare copies. Decide what
+	// drop_oldest would evict, but evict nothing until the whole batch is
+	// certain to be stored: a refused batch must not change the queue.
 	needed := len(items)
-	if s.maxDepth > 0 {
+	var victims []string
+	if need := s.depthOverflowLocked(needed); need > 0 {
 		if s.dropPolicy != "drop_oldest" {
-			if activeCount+needed > s.maxDepth {
-				return 0, ErrQueueFull
-			}
-			if s.deliveredRetentionMaxAge > 0 && activeDeliveredCount+needed > s.maxDepth {
-				return 0, ErrQueueFull
-			}
+			return 0, ErrQueueFull
+		}
+		var ok bool
+		if victims, ok = s.oldestQueuedIDsLocked(need); !ok {
+			return 0, ErrQueueFull
 		}
 	}
 
@@ -263,7 +264,7 @@ func (s *MemoryStore) EnqueueBatch(items []Envelope) (int, error) {
 			return 0, ErrEnvelopeExists
 		}
 		seenIDs[env.ID] = struct{}{}
-		if _, exists := s.items[env.ID]; exists {
+		if _, exists := s.items[env.ID]; exists && !containsID(victims, env.ID) {
 			return 0, ErrEnvelopeExists
 		}
 		if env.State == "" {
@@ -291,20 +292,13 @@ func (s *MemoryStore) EnqueueBatch(items []Envelope) (int, error) {
 		prepared = append(prepared, &cpy)
 	}
 
-	// Handle depth overflow with drop_oldest.
-	if s.maxDepth > 0 {
-		for activeCount+len(prepared) > s.maxDepth || (s.deliveredRetentionMaxAge > 0 && activeDeliveredCount+len(prepared) > s.maxDepth) {
-			if !s.dropOldestQueuedLocked() {
-				return 0, ErrQueueFull
-			}
-			activeCount = s.activeCountLocked()
-			activeDeliveredCount = s.activeDeliveredCountLocked()
-		}
-	}
-
 	if pressure := s.memoryPressureStatusLocked(); pressure.Active {
 		s.memoryPressureRejects++
 		return 0, ErrMemoryPressure
+	}
+
+	for _, id := range victims {
+		s.evictLocked(id, memoryEvictionReasonDropOldest)
 	}
 
 	// Commit all items.
@@ -459,16 +453,54 @@ func envelopeRetainedBytes(env *Envelope) int64 {
 	return size
 }
 
-func (s *MemoryStore) dropOldestQueuedLocked() bool {
+// depthOverflowLocked returns how many queued items drop_oldest would have to
+// evict so that `incoming` new items fit under max_depth (0 when they fit).
+func (s *MemoryStore) depthOverflowLocked(incoming int) int {
+	if s.maxDepth <= 0 {
+		return 0
+	}
+	need := s.activeCountLocked() + incoming - s.maxDepth
+	if s.deliveredRetentionMaxAge > 0 {
+		if n := s.activeDeliveredCountLocked() + incoming - s.maxDepth; n > need {
+			need = n
+		}
+	}
+	if need < 0 {
+		return 0
+	}
+	return need
+}
+
+// oldestQueuedIDsLocked returns the ids of the n oldest queued items in
+// eviction order without evicting them; ok is false when fewer are queued.
+func (s *MemoryStore) oldestQueuedIDsLocked(n int) ([]string, bool) {
+	if n <= 0 {
+		return nil, true
+	}
+	ids := make([]string, 0, n)
+	seen := make(map[string]struct{}, n)
 	for _, id := range s.order {
 		env := s.items[id]
-		if env == nil {
+		if env == nil || env.State != StateQueued {
 			continue
 		}
-		if env.State != StateQueued {
+		if _, dup := seen[id]; dup {
 			continue
 		}
-		return s.evictLocked(id, memoryEvictionReasonDropOldest)
+		seen[id] = struct{}{}
+		ids = append(ids, id)
+		if len(ids) == n {
+			return ids, true
+		}
+	}
+	return nil, false
+}
+
+func containsID(ids []string, id string) bool {
+	for _, v := range ids {
+		if v == id {
+			return true
+		}
 	}
 	return false
 }
